@@ -761,4 +761,257 @@ theorem initActive_rest (bufs : List (List α)) : ∀ (cs : List (Chain σ α)) 
     · obtain ⟨c', hc', h1⟩ := initActive_rest bufs cs (k + 1) B h
       exact ⟨c', List.mem_cons_of_mem _ hc', h1⟩
 
+/-! ## `PreSafe` characterised: lemmas per stage -/
+
+theorem Strm.cons_eq_ofList (y : β) (s : Strm β) (ys : List β) :
+    s.cons y = .ofList ys ↔ ∃ ys', ys = y :: ys' ∧ s = .ofList ys' := by
+  obtain ⟨v, t⟩ := s
+  simp only [Strm.cons, Strm.ofList, Strm.mk.injEq]
+  constructor
+  · rintro ⟨h1, h2⟩
+    exact ⟨v, h1.symm, rfl, h2⟩
+  · rintro ⟨ys', rfl, h1, h2⟩
+    exact ⟨by rw [h1], h2⟩
+
+theorem Strm.fail_ne_ofList (e : Exc) (ys : List β) : (Strm.fail e : Strm β) ≠ .ofList ys := by
+  simp [Strm.fail, Strm.ofList]
+
+/-- `f` returns (does not raise) on every value of `xs`, and `ys` are its results -/
+inductive MapsTo (f : α → Except Exc β) : List α → List β → Prop where
+  | nil : MapsTo f [] []
+  | cons {x : α} {y : β} {xs : List α} {ys : List β} : f x = .ok y → MapsTo f xs ys → MapsTo f (x :: xs) (y :: ys)
+
+theorem mapGo_eq_ofList (f : α → Except Exc β) : ∀ (xs : List α) (ys : List β),
+    mapGo f none xs = .ofList ys ↔ MapsTo f xs ys
+  | [], ys => by
+    simp only [mapGo, Strm.ofList, Strm.mk.injEq, and_true]
+    constructor
+    · intro h; subst h; exact .nil
+    · intro h; cases h; rfl
+  | x :: xs, ys => by
+    simp only [mapGo]
+    cases hf : f x with
+    | error e =>
+      constructor
+      · intro h; exact absurd h (Strm.fail_ne_ofList e ys)
+      · intro h
+        cases h with
+        | cons h1 _ => rw [hf] at h1; cases h1
+    | ok y =>
+      simp only [Strm.cons_eq_ofList]
+      constructor
+      · rintro ⟨ys', rfl, h⟩
+        exact .cons hf ((mapGo_eq_ofList f xs ys').mp h)
+      · intro h
+        cases h with
+        | cons h1 h2 =>
+          rw [hf] at h1
+          cases h1
+          exact ⟨_, rfl, (mapGo_eq_ofList f xs _).mpr h2⟩
+
+/-- `selector(value)` returned `True` -/
+def selTrue (r : Except Exc Bool) : Bool :=
+  match r with
+  | .ok true => true
+  | _ => false
+
+theorem selTrue_true : selTrue (.ok true) = true := rfl
+theorem selTrue_false : selTrue (.ok false) = false := rfl
+
+theorem filterGo_eq_ofList (p : α → Except Exc Bool) : ∀ (xs ys : List α),
+    filterGo p none xs = .ofList ys ↔
+      (∀ x ∈ xs, ∃ b, p x = .ok b) ∧ ys = xs.filter (fun x => selTrue (p x))
+  | [], ys => by
+    simp only [filterGo, Strm.ofList, Strm.mk.injEq, and_true, List.not_mem_nil, false_imp_iff, implies_true,
+      List.filter_nil, true_and]
+    exact eq_comm
+  | x :: xs, ys => by
+    simp only [filterGo]
+    cases hp : p x with
+    | error e =>
+      constructor
+      · intro h; exact absurd h (Strm.fail_ne_ofList e ys)
+      · rintro ⟨h, _⟩
+        obtain ⟨b, hb⟩ := h x (List.mem_cons_self ..)
+        rw [hp] at hb; cases hb
+    | ok b =>
+      cases b with
+      | true =>
+        simp only [Strm.cons_eq_ofList, List.filter_cons, hp, selTrue_true, if_true]
+        constructor
+        · rintro ⟨ys', rfl, h⟩
+          obtain ⟨h1, h2⟩ := (filterGo_eq_ofList p xs ys').mp h
+          refine ⟨?_, by rw [h2]⟩
+          intro x' hx'
+          rcases List.mem_cons.mp hx' with rfl | hx'
+          · exact ⟨true, hp⟩
+          · exact h1 x' hx'
+        · rintro ⟨h1, rfl⟩
+          exact ⟨_, rfl, (filterGo_eq_ofList p xs _).mpr
+            ⟨fun x' hx' => h1 x' (List.mem_cons_of_mem _ hx'), rfl⟩⟩
+      | false =>
+        simp only [List.filter_cons, hp, selTrue_false, Bool.false_eq_true, if_false]
+        rw [filterGo_eq_ofList p xs ys]
+        constructor
+        · rintro ⟨h1, h2⟩
+          refine ⟨?_, h2⟩
+          intro x' hx'
+          rcases List.mem_cons.mp hx' with rfl | hx'
+          · exact ⟨false, hp⟩
+          · exact h1 x' hx'
+        · rintro ⟨h1, h2⟩
+          exact ⟨fun x' hx' => h1 x' (List.mem_cons_of_mem _ hx'), h2⟩
+
+theorem Strm.andThen_eq_ofList (a b : Strm β) (ys : List β) :
+    a.andThen b = .ofList ys ↔ a.term = none ∧ ∃ ys', b = .ofList ys' ∧ ys = a.vals ++ ys' := by
+  obtain ⟨av, at_⟩ := a
+  obtain ⟨bv, bt⟩ := b
+  cases at_ with
+  | some e => simp [Strm.andThen, Strm.ofList]
+  | none =>
+    simp only [Strm.andThen, Strm.ofList, Strm.mk.injEq, true_and]
+    constructor
+    · rintro ⟨h1, h2⟩
+      exact ⟨bv, ⟨rfl, h2⟩, h1.symm⟩
+    · rintro ⟨ys', ⟨h1, h2⟩, h3⟩
+      subst h1
+      exact ⟨h3.symm, h2⟩
+
+theorem bindGo_eq_ofList (g : α → Strm β) : ∀ (xs : List α) (ys : List β),
+    bindGo g none xs = .ofList ys ↔
+      (∀ x ∈ xs, (g x).term = none) ∧ ys = xs.flatMap (fun x => (g x).vals)
+  | [], ys => by
+    simp only [bindGo, Strm.ofList, Strm.mk.injEq, and_true, List.not_mem_nil, false_imp_iff, implies_true,
+      List.flatMap_nil, true_and]
+    exact eq_comm
+  | x :: xs, ys => by
+    simp only [bindGo, Strm.andThen_eq_ofList, List.flatMap_cons]
+    constructor
+    · rintro ⟨h1, ys', h2, rfl⟩
+      obtain ⟨h3, h4⟩ := (bindGo_eq_ofList g xs ys').mp h2
+      refine ⟨?_, by rw [h4]⟩
+      intro x' hx'
+      rcases List.mem_cons.mp hx' with rfl | hx'
+      · exact h1
+      · exact h3 x' hx'
+    · rintro ⟨h1, rfl⟩
+      exact ⟨h1 x (List.mem_cons_self ..), _,
+        (bindGo_eq_ofList g xs _).mpr ⟨fun x' hx' => h1 x' (List.mem_cons_of_mem _ hx'), rfl⟩, rfl⟩
+
+theorem term_none_iff_ofList (s : Strm β) : s.term = none ↔ ∃ ys, s = .ofList ys :=
+  ⟨fun h => ⟨s.vals, Strm.ofList_eq s h⟩, fun ⟨_, h⟩ => by rw [h]; rfl⟩
+
+/-! ## `Split` filled as a FillCompute element, when no branch stops -/
+
+/-- the branch after it was filled with `xs` (left as it is if the filling does not return normally) -/
+def Active.advance (B : Active σ α) (xs : List α) : Active σ α :=
+  match feedList (chainSink B.chain.acc B.chain.pre) B.st xs with
+  | .ok st' => { B with st := st' }
+  | _ => B
+
+/-- filling the branch with `xs` returns normally (no `LenaStopFill`, no exception) -/
+def Active.FillsOk (B : Active σ α) (xs : List α) : Prop :=
+  ∃ st', feedList (chainSink B.chain.acc B.chain.pre) B.st xs = .ok st'
+
+theorem Active.advance_nil (B : Active σ α) : B.advance [] = B := rfl
+
+theorem Active.advance_of_ok (B : Active σ α) (xs : List α) (st' : ChainState σ B.chain.pre)
+    (h : feedList (chainSink B.chain.acc B.chain.pre) B.st xs = .ok st') :
+    B.advance xs = { chain := B.chain, st := st', idx := B.idx } := by
+  unfold Active.advance
+  split
+  · rename_i st'' heq
+    rw [h] at heq
+    cases heq
+    rfl
+  · rename_i hne
+    exact absurd h (hne st')
+
+theorem Active.fillsOk_append {B : Active σ α} {a b : List α} (h : B.FillsOk (a ++ b)) :
+    B.FillsOk a ∧ (B.advance a).FillsOk b ∧ (B.advance a).advance b = B.advance (a ++ b) := by
+  obtain ⟨st', h⟩ := h
+  have hab := h
+  rw [feedList_append] at h
+  cases ha : feedList (chainSink B.chain.acc B.chain.pre) B.st a with
+  | ok s1 =>
+    rw [ha] at h
+    simp only at h
+    have hadv := Active.advance_of_ok B a s1 ha
+    refine ⟨⟨s1, ha⟩, ?_, ?_⟩
+    · rw [hadv]
+      exact ⟨st', h⟩
+    · rw [hadv, Active.advance_of_ok B (a ++ b) st' hab]
+      exact Active.advance_of_ok { chain := B.chain, st := s1, idx := B.idx } b st' h
+  | stop s1 => rw [ha] at h; cases h
+  | err e => rw [ha] at h; cases h
+
+theorem splitFill_ok (x : α) : ∀ (act : List (Active σ α)), (∀ B ∈ act, B.FillsOk [x]) →
+    splitFill act x = .ok (act.map (fun B => B.advance [x]))
+  | [], _ => rfl
+  | B :: rest, h => by
+    obtain ⟨st', hB⟩ := h B (List.mem_cons_self ..)
+    have hB' : (chainSink B.chain.acc B.chain.pre).fill B.st x = .ok st' := by
+      simp only [feedList] at hB
+      cases hk : (chainSink B.chain.acc B.chain.pre).fill B.st x with
+      | ok s1 => rw [hk] at hB; simp only [FillRes.ok.injEq] at hB; rw [hB]
+      | stop s1 => rw [hk] at hB; cases hB
+      | err e => rw [hk] at hB; cases hB
+    have hadv : B.advance [x] = { B with st := st' } := Active.advance_of_ok B [x] st' hB
+    simp only [splitFill, hB', splitFill_ok x rest (fun B' hB' => h B' (List.mem_cons_of_mem _ hB')),
+      FillRes.map, List.map_cons, hadv]
+
+theorem feedList_splitSink_ok : ∀ (xs : List α) (act : List (Active σ α)), (∀ B ∈ act, B.FillsOk xs) →
+    feedList splitSink act xs = .ok (act.map (fun B => B.advance xs))
+  | [], act, _ => by simp [feedList, Active.advance_nil]
+  | x :: xs, act, h => by
+    have h1 : ∀ B ∈ act, B.FillsOk [x] := fun B hB => (Active.fillsOk_append (a := [x]) (b := xs) (h B hB)).1
+    have h2 : ∀ B' ∈ act.map (fun B => B.advance [x]), B'.FillsOk xs := by
+      intro B' hB'
+      obtain ⟨B, hB, rfl⟩ := List.mem_map.mp hB'
+      exact (Active.fillsOk_append (a := [x]) (b := xs) (h B hB)).2.1
+    simp only [feedList, splitSink, splitFill_ok x act h1]
+    have ih := feedList_splitSink_ok xs _ h2
+    simp only [splitSink] at ih
+    rw [ih, List.map_map]
+    congr 1
+    apply List.map_congr_left
+    intro B hB
+    exact (Active.fillsOk_append (a := [x]) (b := xs) (h B hB)).2.2
+
+theorem processBuf_ok (buf : List α) : ∀ (act : List (Active σ α)), (∀ B ∈ act, B.FillsOk buf) →
+    processBuf buf act = (act.map (fun B => B.advance buf), .nil)
+  | [], _ => rfl
+  | B :: rest, h => by
+    obtain ⟨st', hB⟩ := h B (List.mem_cons_self ..)
+    have hadv : B.advance buf = { B with st := st' } := Active.advance_of_ok B buf st' hB
+    simp only [processBuf, hB, processBuf_ok buf rest (fun B' hB' => h B' (List.mem_cons_of_mem _ hB')),
+      List.map_cons, hadv]
+
+theorem splitLoop_ok : ∀ (bufs : List (List α)) (act : List (Active σ α)),
+    (∀ B ∈ act, B.FillsOk bufs.flatten) →
+    splitLoop bufs act = finalCompute (act.map (fun B => B.advance bufs.flatten))
+  | [], act, _ => by simp [splitLoop, Active.advance_nil]
+  | buf :: bufs, act, h => by
+    simp only [List.flatten_cons] at h
+    have h1 : ∀ B ∈ act, B.FillsOk buf := fun B hB => (Active.fillsOk_append (h B hB)).1
+    have h2 : ∀ B' ∈ act.map (fun B => B.advance buf), B'.FillsOk bufs.flatten := by
+      intro B' hB'
+      obtain ⟨B, hB, rfl⟩ := List.mem_map.mp hB'
+      exact (Active.fillsOk_append (h B hB)).2.1
+    simp only [splitLoop, processBuf_ok buf act h1, Strm.nil_andThen, splitLoop_ok bufs _ h2, List.map_map,
+      List.flatten_cons]
+    congr 1
+    apply List.map_congr_left
+    intro B hB
+    exact (Active.fillsOk_append (h B hB)).2.2
+
+theorem initActive_fillsOk (xs : List α) : ∀ (cs : List (Chain σ α)) (k : Nat),
+    (∀ c ∈ cs, ∃ st, fillAllChain c xs = .ok st) → ∀ B ∈ initActive k cs, B.FillsOk xs
+  | [], _, _, B, hB => by simp [initActive] at hB
+  | c :: cs, k, h, B, hB => by
+    simp only [initActive, List.mem_cons] at hB
+    rcases hB with rfl | hB
+    · exact h c (List.mem_cons_self ..)
+    · exact initActive_fillsOk xs cs (k + 1) (fun c' hc' => h c' (List.mem_cons_of_mem _ hc')) B hB
+
 end Lena.C05
